@@ -316,3 +316,52 @@ class View:
     def file_bytes(self, fam, chunks, f):
         refs = sorted(f['chunks'], key=lambda r: r['counter'])
         return b''.join(self.chunk_plain(fam, chunks[r['index']])[r['range'][0]:r['range'][1]] for r in refs)
+
+
+# ---------------------------------------------------------------- independent writer
+def write_repository(keys, stream_files, cuts, *, timestamp, legacy_metadata=False, closed_intervals=True, note=None, align=4):
+    """Build the objects of a repository holding one snapshot, following the documented scheme.
+
+    stream_files: [(path, bytes, metadata dict)] in stream order; the stream is the files padded to `align`;
+    cuts: interior cut positions of the stream (any tiling is a valid repository).
+    Returns {location: bytes}."""
+    layout, pos, stream = [], 0, bytearray()
+    for path, data, md in stream_files:
+        layout.append((path, pos, pos + len(data), data, md))
+        stream += data
+        pad = (-len(data)) % align
+        stream += bytes(pad)
+        pos += len(data) + pad
+    total = layout[-1][2] if layout else 0
+    stream = bytes(stream[:total])
+    bounds = sorted(set([0, total] + [c for c in cuts if 0 < c < total])) if total else []
+    objs, table, entries = {}, [], {}
+    for path, s, e, data, md in layout:
+        entries[path] = {'path': path, 'chunks': [], 'digest': keys.hash(data), 'metadata': md}
+    for j in range(len(bounds) - 1):
+        lo, hi = bounds[j], bounds[j + 1]
+        plain = stream[lo:hi]
+        d = keys.hash(plain)
+        if d not in table:
+            table.append(d)
+        loc, blob = keys.encode_chunk(plain)
+        objs[loc] = blob
+        for path, s, e, data, md in layout:
+            touch = (s <= hi and not e < lo) if closed_intervals else (s < hi and e > lo)
+            if touch:
+                entries[path]['chunks'].append({'range': [max(s - lo, 0), min(e, hi) - lo], 'index': table.index(d), 'counter': j + 1})
+    files = []
+    for path, s, e, data, md in layout:
+        ent = entries[path]
+        if legacy_metadata:
+            m = dict(md)
+            for k in ('st_atime', 'st_mtime', 'st_ctime'):
+                m[k] = m.pop(k + '_ns') / 1e9
+            ent['metadata'] = m
+        files.append(ent)
+    data = {'utc_timestamp': timestamp, 'files': files}
+    if note is not None:
+        data['note'] = note
+    loc, blob = keys.encode_snapshot(table, data)
+    objs[loc] = blob
+    return objs
